@@ -417,10 +417,11 @@ CODE_LEVEL = {
             "(full and abbreviated ACF-CAN builders; the abbreviated one also returns the padded length); read-back of the payload "
             "length through the C text of Avtp_Can_GetCanPayloadLength and its two dedicated getters: PARTIAL (headers whose int "
             "arithmetic does not go negative)"),
-    "C03": (["O1722.Refine.Props", "O1722.CSem.Frame"], ["O1722.Refine.C01_code", "O1722.Refine.C02_code", "O1722.C.exec_frame", "O1722.C.callFn_frame"],
+    "C03": (["O1722.Refine.Props", "O1722.CSem.Frame", "O1722.Refine.CanLen"],
+            ["O1722.Refine.C01_code", "O1722.Refine.C02_code", "O1722.C.exec_frame", "O1722.C.callFn_frame", "O1722.Refine.C03_code_payload"],
             "every access of the C text of Avtp_GetField/SetField lies in a quadlet the field occupies; and for EVERY function of the "
             "C subset (all 492 serialised library functions): memory changes only at addresses covered by a write entry the run "
-            "appended to the access log (the log is a sound footprint)"),
+            "appended to the access log (the log is a sound footprint); the C text of the payload accessor returns pdu + header length"),
     "C16": (["O1722.CSem.Frame"], ["O1722.C.exec_frame", "O1722.C.callFn_frame", "O1722.C.exec_mono"],
             "for every function of the C subset: a run only extends the access log and changes memory only inside logged write "
             "ranges; results do not depend on surplus fuel; the semantics has no state besides the memory and the log it is given "
